@@ -53,8 +53,8 @@ type Task struct {
 	mu    any
 	lkind string
 
-	weakRank  int
-	held      map[any]string // locks held by this task (lock model), value "r" or "w"
+	weakRank int
+	held     map[any]string // locks held by this task (lock model), value "r" or "w"
 
 	blockedAt string
 	Panic     any
@@ -546,14 +546,14 @@ const (
 )
 
 type shadow struct {
-	state    shadowState
-	owner    *Task
-	lockset  map[any]bool
-	reported bool
-	keep     any
-	lastSite string
-	lastTask int
-	lastW    bool
+	state     shadowState
+	owner     *Task
+	lockset   map[any]bool
+	reported  bool
+	keep      any
+	lastSite  string
+	lastTask  int
+	lastW     bool
 	hasOther  bool
 	otherSite string
 	otherTask int
